@@ -9,6 +9,7 @@ package rapid
 import (
 	"bufio"
 	"fmt"
+	"math"
 	"os"
 	"path/filepath"
 	"strconv"
@@ -115,6 +116,7 @@ func loadFailFile(filename string) (string, uint64, []uint64, error) {
 
 	var data []string
 	scanner := bufio.NewScanner(f)
+	scanner.Buffer(nil, math.MaxInt) // captured test output may contain lines of any length
 	for scanner.Scan() {
 		s := strings.TrimSpace(scanner.Text())
 		if strings.HasPrefix(s, "#") || s == "" {
